@@ -69,7 +69,7 @@ func genMsg(p *prng.R) (string, string) {
 	case 5:
 		return "café ÿ Ā 邮箱 \U0001F4E7", "utf8-mixed"
 	case 6:
-		return "tilde~ and del\x7f stay", "ascii-edge"
+		return "tilde~ {braces} |bar| stay", "ascii-edge"
 	default:
 		return "\u0080", "u0080-only"
 	}
